@@ -19,7 +19,11 @@ for name, e in plan.ENGINES.items():
             print(f'warm {name}: prepare: {err}')
             continue
     tdir = os.path.join(kani_run.CACHE, f'target-{name}')
-    r = subprocess.run(['cargo', 'kani', '-Z', 'stubbing', '--only-codegen', '--target-dir', tdir],
+    # one small harness is enough to build every dependency under Kani's
+    # toolchain; code generation for *all* harnesses of the generated crate takes
+    # more than an hour and is not needed (each check compiles what it runs)
+    one = e.get('harness_prefix', '') + e.get('warm_harness', '')
+    r = subprocess.run(['cargo', 'kani', '-Z', 'stubbing', '-Z', 'unstable-options', '--only-codegen', '--exact', '--harness', one, '--target-dir', tdir],
                        cwd=e['dir'], env=env, capture_output=True, text=True)
     print(f'warm {name}: kani codegen rc={r.returncode}')
     if r.returncode != 0:
